@@ -824,6 +824,11 @@ class RZILTransformer(Transformer):
             self.add_op(SubRoutineCall(self.sub_routines[routine_name], casted_args))
         )
 
+    def call_without_args(self, items):
+        # Calls without arguments: "fcn()". Without this handler only the name of the function remained
+        # in the tree and the call was dropped silently.
+        return self.sub_routine(items)
+
     def postfix_expr(self, items):
         self.ext.set_token_meta_data("postfix_expr")
         t = HybridType(items[1])
